@@ -56,7 +56,7 @@ def run(ctx):
             ctx.violation(f"myst-anchors prints {o['cli']}, rendering assigned {[c2s(s) for s, _ in exp]}", {**case, "cli": o["cli"]})
             continue
         # every anchor resolves to its own heading (links of the fixed block that name a slug)
-        links = A.LINKS
+        links = rec.get("links") or A.LINKS
         for l, (name, form) in enumerate(links):
             if l < len(o["res"]) and rec["res"][l][0] == "slug" and o["res"][l] != list(rec["res"][l]):
                 ctx.violation(f"'#{name}' should resolve to heading item {rec['res'][l][1]}, observed {o['res'][l]}", case)
